@@ -1176,6 +1176,8 @@ for vx_u1 in 0 .. num_entries_bytes invariant num_entries_bytes <= 4 , n == n0 >
 bytes . write_u8 ( ( n & 0xff ) as u8 ) ;
 proof {
 let j = vx_u1 as u32 ;
+let g_n = n ;
+assert ( g_n >> 8 == g_n / 256 && g_n & 0xff == g_n % 256 ) by ( bit_vector ) ;
 assert ( j < 4 ==> ( ( n0 >> ( 8 * j ) ) >> 8 ) == n0 >> ( 8 * ( j + 1 ) as u32 ) ) by ( bit_vector ) ;
 assert ( le_count_bytes ( n0 , vx_u1 as nat + 1 ) =~= le_count_bytes ( n0 , vx_u1 as nat ) . push ( ( ( n0 >> ( 8 * j ) ) & 0xff ) as u8 ) ) ;
 }
